@@ -21,7 +21,7 @@ FUNCTIONS = ['bfg9000.shell.windows.inner_quote_info', 'windows.wrap_quotes', 'w
              'windows.join_lines', 'windows.escape_line',
              'bfg9000.backends.ninja.syntax.Writer.write_shell (can_wrap)',
              'bfg9000.backends.msbuild.solution.UuidMap.__getitem__', 'UuidMap._load',
-             'UuidMap.save', 'Solution.__setitem__', 'Solution.dependencies', 'Solution.write',
+             'UuidMap.save', 'Solution.__setitem__', 'Solution.dependencies', 'Solution.write', 'Solution.set_default', 'bfg9000.builtins.default.msbuild_default',
              'bfg9000.backends.msbuild.syntax.Project.set_uuid']
 OUTSIDE = ['cmd.exe metacharacters ^ and % (documented as not escaped)', 'the program-name word of '
            'a command line (argv[0] is parsed by different rules)', 'strings longer than the bound',
@@ -65,6 +65,8 @@ def obligations(tier, kf):
     u = Ob('u_uuid_history', {'RUNS': 2 if quick else 3}, 900, desc='UuidMap histories')
     obs += [u, u.twin(), Ob('u_uuid_history', {'RUNS': 2}, 300).mutant('uuid_save_all'),
             Ob('u_uuid_history', {'RUNS': 2}, 300).mutant('uuid_forget_load')]
+    md = Ob('m_default_project', {}, 600, desc='default-project hook over explicit/fallback shapes')
+    obs += [md, md.twin(), md.mutant('msbuild_default_moves_all')]
     d = Ob('d_solution', {}, 600, desc='Solution dependency shapes')
     obs += [d, d.twin(), d.mutant('sln_dep_wrong_uuid')]
     return obs
